@@ -3,6 +3,7 @@
 //!
 //!   p-zonefile <C23|C24|C25> <quick|thorough> [--replay FILE]
 
+mod bigfile;
 mod c23;
 mod c24;
 mod c25;
